@@ -13,6 +13,14 @@ from .values import *  # noqa
 from .interp import (PyRaise, pyraise, Redirect, BM, BuiltinMethod, NativeBound, SGen, SFunc, NULL, JUMPED, Cell)
 
 MISSING = object()
+
+
+class NeedTruthCall(BaseException):
+    """truth of an object whose class defines __bool__/__len__ in interpreted code"""
+
+    def __init__(self, fn, obj):
+        self.fn, self.obj = fn, obj
+
 _WS_DEFAULT = None
 
 
@@ -150,9 +158,13 @@ class Models:
         if isinstance(v, (SIter, SMatch, SGen, SFunc, BM, BuiltinMethod, NativeBound, Stub, StubMethod)):
             return True
         t = type(v)
-        if self.mro_lookup(t, "__bool__") is not None or self.mro_lookup(t, "__len__") is not None:
+        fb, fl = self.mro_lookup(t, "__bool__"), self.mro_lookup(t, "__len__")
+        if fb is not None or fl is not None:
             if isinstance(v, (collections.OrderedDict,)):
                 return len(v) > 0
+            f = fb if fb is not None else fl
+            if isinstance(f, types.FunctionType) and self.world_owned_class(t):
+                raise NeedTruthCall(f, v)
             raise Unsupported(f"truth of {t} with __bool__/__len__")
         return True
 
@@ -587,6 +599,8 @@ class Models:
                     a2 = self.I.concretize_int(W, a)
                     b2 = self.I.concretize_int(W, b)
                     return native(lambda: a2 % b2 if op == "%" else a2 // b2)
+            if op in ("+", "-") and (is_strlike(a) or is_strlike(b) or isinstance(a, (list, tuple, dict, type(None))) or isinstance(b, (list, tuple, dict, type(None)))):
+                pyraise(TypeError, f"unsupported operand type(s) for {op}: '{model_type(a).__name__}' and '{model_type(b).__name__}'")
             raise Unsupported(f"SInt {op} {type(b)}")
         if is_sym(a) or is_sym(b) or isinstance(a, SSet) or isinstance(b, SSet):
             if op in ("|", "&", "-") and isinstance(a, (SSet, set, frozenset)) and isinstance(b, (SSet, set, frozenset)):
@@ -1060,6 +1074,9 @@ class Models:
         m = self.eng.native_models.get(fn) if self._hashable(fn) else None
         if m is not None:
             return m(self.I, W, args, kwargs)
+        if isinstance(fn, types.MethodDescriptorType) and getattr(fn, "__objclass__", None) in (list, dict, set, frozenset, str, tuple) and args:
+            # unbound method of a builtin type called with the receiver first, e.g. list.copy(x) (used by copy.copy)
+            return self.call_method(W, args[0], fn.__name__, tuple(args[1:]), kwargs)
         if isinstance(fn, (types.MethodWrapperType, types.MethodDescriptorType, types.WrapperDescriptorType)):
             raise Unsupported(f"native slot call {fn}")
         pyraise(TypeError, f"'{model_type(fn).__name__}' object is not callable")
@@ -1411,7 +1428,9 @@ class Models:
                     c = cs[0]
                     return c.pred(getattr(str, name))
                 if name == "isidentifier":
-                    raise Unsupported("isidentifier on symbolic")
+                    first = cs[0].isidentifier() if isinstance(cs[0], str) else cs[0].pred(str.isidentifier, "isidentifier")
+                    rest = b_all((("a" + c).isidentifier() if isinstance(c, str) else c.pred(lambda ch: ("a" + ch).isidentifier(), "isidcont")) for c in cs[1:])
+                    return b_and(first, rest)
                 # cased-ness: all cased chars are upper and there is at least one cased char
                 f_ok = (lambda ch: not ch.islower()) if name == "isupper" else (lambda ch: not ch.isupper())
                 f_cased = (lambda ch: ch.isupper()) if name == "isupper" else (lambda ch: ch.islower())
